@@ -20,7 +20,7 @@ CompSmall == {SInt1, SInt05, SStrAB, SStrAlpha}
 
 LenCallsSmall == { Call("len", <<VInt(0)>>), Call("len", <<VInt(2)>>), Call("len", <<VInt(3)>>),
                    Call("len", <<VInt(1), VEllipsis>>), Call("len", <<VInt(3), VEllipsis>>),
-                   Call("len", <<VEllipsis, VInt(1)>>), Call("len", <<VEllipsis, VInt(3)>>),
+                   Call("len", <<VEllipsis, VInt(0)>>), Call("len", <<VEllipsis, VInt(1)>>), Call("len", <<VEllipsis, VInt(3)>>),
                    Call("len", <<VInt(1), VInt(2)>>), Call("len", <<VInt(17), VEllipsis>>) }
 
 \* a list schema and every length refinement of it the DSL accepts
